@@ -426,6 +426,42 @@ def _store_leaves(stmts, conds, acc):
     raise _NoComp()
 
 
+_CUR_FN = [None]
+
+
+def _loop_vars_live_after(loop, rest):
+    """a `for` loop leaves its variables bound to the last element; a comprehension does not: the loop may only become a
+    comprehension when nothing after it (in this block) reads them before rebinding them"""
+    names = {n.id for n in ast.walk(loop.target) if isinstance(n, ast.Name)}
+    root = _CUR_FN[0]
+    if root is not None:
+        # anywhere in the function: a read of the variable outside this loop, and outside any other loop or comprehension that binds
+        # the same name itself, is (conservatively) a read of what this loop left behind
+        inside = {id(n) for n in ast.walk(loop)}
+        rebinding = set()
+        for other in ast.walk(root):
+            if other is loop:
+                continue
+            if isinstance(other, ast.For) and names & {n.id for n in ast.walk(other.target) if isinstance(n, ast.Name)}:
+                rebinding |= {id(n) for n in ast.walk(other)}
+            if isinstance(other, (ast.ListComp, ast.SetComp, ast.DictComp, ast.GeneratorExp)) and \
+                    names & {n.id for g in other.generators for n in ast.walk(g.target) if isinstance(n, ast.Name)}:
+                rebinding |= {id(n) for n in ast.walk(other)}
+        for n in ast.walk(root):
+            if isinstance(n, ast.Name) and n.id in names and isinstance(n.ctx, ast.Load) and id(n) not in inside and id(n) not in rebinding:
+                return True
+        return False
+    for st in rest:
+        for n in ast.walk(st):
+            if isinstance(n, ast.Name) and n.id in names and isinstance(n.ctx, ast.Load):
+                return True
+        names -= {n.id for n in ast.walk(st) if isinstance(n, ast.Name) and isinstance(n.ctx, ast.Store)
+                  and isinstance(st, ast.Assign)}
+        if not names:
+            return False
+    return False
+
+
 def _loops_to_comprehensions(block):
     """`acc = []` directly followed by a loop whose body only filters (if / continue) and appends one expression to acc becomes
     `acc = [expr for target in iter if cond]`: the loop and the comprehension are one construct for the rules."""
@@ -465,6 +501,7 @@ def _loops_to_comprehensions(block):
             except _NoComp:
                 leaves = None
             if leaves and len(uses_acc) == len({id(x) for c, e, x in leaves}) and len({ast.dump(e) for c, e, x in leaves}) == 1 \
+                    and not _loop_vars_live_after(l, block[i + 2:]) \
                     and not any(isinstance(n, (ast.Break, ast.Return, ast.Yield, ast.Assign, ast.AugAssign)) for n in ast.walk(l)):
                 def conj(cs):
                     cs = [_dc(c) for c in cs]
@@ -490,6 +527,7 @@ def _loops_to_comprehensions(block):
                 leaves = None
             # (a repeated key overwrites the earlier value and keeps its position, in the loop and in the comprehension alike)
             if leaves and len(uses_acc) == len({id(x) for c, k, v, x in leaves}) and len({ast.dump(k) + ast.dump(v) for c, k, v, x in leaves}) == 1 \
+                    and not _loop_vars_live_after(l, block[i + 2:]) \
                     and not any(isinstance(n, (ast.Break, ast.Return, ast.Yield, ast.AugAssign)) for n in ast.walk(l)) \
                     and sum(isinstance(n, ast.Assign) for n in ast.walk(l)) == len({id(x) for c, k, v, x in leaves}):
                 def conj(cs):
@@ -568,6 +606,19 @@ def _eliminate_found_flags(f):
         last_set = max(top_of[id(st)] for b, st in sets)
         reads = [n for n in ast.walk(f) if isinstance(n, ast.Name) and n.id == flag and isinstance(n.ctx, ast.Load)]
         if not reads or any(top_of.get(id(n), -1) <= last_set for n in reads):
+            continue
+        # the flag is a bool, the replacement a list: only reads that ask for the truth value may be rewritten
+        par = {}
+        for p_ in ast.walk(f):
+            for c_ in ast.iter_child_nodes(p_):
+                par[id(c_)] = p_
+
+        def boolean_context(n):
+            q = par.get(id(n))
+            while isinstance(q, (ast.BoolOp,)) or (isinstance(q, ast.UnaryOp) and isinstance(q.op, ast.Not)):
+                n, q = q, par.get(id(q))
+            return (isinstance(q, (ast.If, ast.While, ast.IfExp)) and q.test is n) or (isinstance(q, ast.Assert) and q.test is n)
+        if not all(boolean_context(n) for n in reads):
             continue
         order = [L for L in inits if L in lists]
         repl = ast.BoolOp(op=ast.Or(), values=[ast.Name(id=L, ctx=ast.Load()) for L in order]) if len(order) > 1 else ast.Name(id=order[0], ctx=ast.Load())
@@ -651,6 +702,7 @@ def _as_load_copy(node):
 
 def inline_aliases(fn: ast.FunctionDef, keep=()) -> ast.FunctionDef:
     f = _dc(fn)
+    _CUR_FN[0] = f
     _eliminate_found_flags(f)
     _unroll_literal_loops(f)
     _forward_unpacked(f)
@@ -853,8 +905,8 @@ def _expand_call(st, call, h, receiver, caller_locals):
         if p in stores:
             mapping[p] = p + tag
             pre.append(ast.copy_location(ast.Assign(targets=[ast.Name(id=p + tag, ctx=ast.Store())], value=_dc(x), lineno=st.lineno), st))
-        elif is_pure(x) or loads.get(p, 0) <= 1:
-            subst[p] = x
+        elif is_pure(x) or loads.get(p, 0) == 0:
+            subst[p] = x  # (an impure argument is bound to a name first: it is evaluated once, before the body, as in the call)
         else:
             mapping[p] = p + tag
             pre.append(ast.copy_location(ast.Assign(targets=[ast.Name(id=p + tag, ctx=ast.Store())], value=_dc(x), lineno=st.lineno), st))
@@ -868,6 +920,13 @@ def _expand_call(st, call, h, receiver, caller_locals):
             (st.test if isinstance(st, ast.If) else st.iter)
         if prefix and _in_nested_scope(holder, call):
             return None
+        if prefix:
+            order = []
+            _eval_order(holder, order)
+            pos = next((k for k, n in enumerate(order) if n is call), None)
+            if pos is None or any(isinstance(n, ast.Call) and n is not call and not is_pure(n) for n in order[:pos]
+                                  if not any(n is a for a in ast.walk(call))):
+                return None
         new_st = _ReplaceNode(call, body[-1].value).visit(st)
         return prefix + [new_st]
     # shape B
